@@ -125,6 +125,31 @@ func c18Unit(name string, lvl int) core.Unit {
 		// ---- ranges
 		rc := gen.Uniq(gen.Ranges(name, 0))
 		rprobes := stride(all, 40)
+		{
+			// always probe the range-bound versions themselves and members that start with a letter prefix
+			have := map[int]bool{}
+			for _, i := range rprobes {
+				have[i] = true
+			}
+			want := map[string]bool{}
+			for _, b := range gen.RangeBounds[name] {
+				want[b] = true
+			}
+			extra := 0
+			for i, s := range u.Strs {
+				if have[i] {
+					continue
+				}
+				letterPrefix := len(s) > 1 && (s[0] < '0' || s[0] > '9') && extra < 12
+				if want[s] || letterPrefix {
+					rprobes = append(rprobes, i)
+					have[i] = true
+					if letterPrefix {
+						extra++
+					}
+				}
+			}
+		}
 		for _, rs := range rc {
 			if rs == "" || rs != strings.TrimSpace(rs) {
 				continue
@@ -174,17 +199,18 @@ func c18Unit(name string, lvl int) core.Unit {
 			}
 			// padded probe versions against the range
 			for k, pi := range rprobes {
-				if k%4 != 0 {
-					continue
-				}
-				pv, err := eco.SafeParse(e, " "+u.Strs[pi]+"\n")
-				if err != nil {
-					continue
-				}
-				got, _ := eco.SafeContains(rg, pv)
-				r.Add("evaluations", 1)
-				if got != base[k] {
-					viol("version-padding-contains", []string{rs, " " + u.Strs[pi] + "\n"}, fmt.Sprintf("Contains=%v as for the unpadded version", base[k]), fmt.Sprintf("%v", got))
+				for _, pad := range [][2]string{{" ", "\n"}, {"", "\r\n"}, {"\t", ""}} {
+					ps := pad[0] + u.Strs[pi] + pad[1]
+					pv, err := eco.SafeParse(e, ps)
+					if err != nil {
+						continue
+					}
+					got, _ := eco.SafeContains(rg, pv)
+					r.Add("evaluations", 1)
+					if got != base[k] {
+						viol("version-padding-contains", []string{rs, ps}, fmt.Sprintf("Contains=%v as for the unpadded version", base[k]), fmt.Sprintf("%v", got))
+						break
+					}
 				}
 			}
 		}
